@@ -513,3 +513,7 @@ def check_layout(program, out, check_meaning=True):
                 return "statement {} ({}) at ${:04X}: bytes {} decode as {}, source means {}".format(
                     i, rows[i][2].strip()[:50], addr, image[addr - origin:addr - origin + length].hex(), insn.nf, exp), None, None
     return None, layout, env
+
+# programs with many labels (every statement has a 2 in 3 chance to carry one): more cross references
+rich_program = st.builds(build_program, st.lists(_proto, min_size=8, max_size=40), st.integers(0, 10 ** 6),
+                         st.sampled_from([1, 1, 1, 2, 3, 0]), st.lists(st.integers(0, 2), min_size=1, max_size=12))
